@@ -17,7 +17,7 @@ RULE = ('cases: histories (4..30 steps) on both roles: advertise_alternative_ser
         'attempted or received in a state other than "request open, no response yet"; distinct by trace')
 ASSUMPTIONS = ['requests carry an :authority pseudo-header (the origin a stream-bound advertisement refers to)']
 TIERS = {'quick': {'cases': 4000, 'size': 300},
-         'thorough': {'cases': 150000, 'size': 400}}
+         'thorough': {'cases': 1200000, 'size': 400}}
 
 
 def req_for(n):
